@@ -310,3 +310,7 @@ pub fn parse_field_value_timestamp(m: &Multipart, name: &str, fmt: TimestampForm
         Err(source) => Err(s3_error!(source, InvalidArgument, "invalid field value: {}: {:?}", name, val)),
     }
 }
+
+// verification hook (compiled only under `cargo kani`, see /verif/MANIFEST.json hooks)
+#[cfg(kani)]
+include!(concat!(env!("VERIF_KANI_INC"), "/s3s_http_de.rs"));
